@@ -208,7 +208,8 @@ def tpl_size(size, v, k, ctor, half=0, _twin=False):
     w = World("c09.size")
     code = 0
     if half == 1:
-        v = v / 2          # odd v: a value between two integers (e.g. -0.5)
+        from fractions import Fraction
+        v = Fraction(v, 2)          # odd v: a value between two integers (e.g. -1/2); exact arithmetic, no floats
     try:
         if ctor:
             for mk in (lambda: TaskPool(pool_size=v), lambda: SimpleTaskPool(w.worker(1), pool_size=v)):
